@@ -11,8 +11,10 @@ import warnings
 import numpy as np
 
 from ..engine import REPO, lean_list
+from . import _c07readers as rdrs
+from . import _c17readers as rkeys
 
-MODULES = ["Iodata.Props.C17"]
+MODULES = ["Iodata.Props.C17", "Iodata.Props.C17Readers"]
 OPS = ["load_one", "load_many", "dump_one", "dump_many"]
 RULE = (
     "select: every corpus file name, every pattern instantiated with '*' -> '', 'x', every other pattern's literal "
@@ -24,12 +26,20 @@ RULE = (
     "format is given. selectin: input-module names. search: selection re-derived independently with fnmatch over "
     "sorted module names; every corpus file that loads (load_one and load_many) against its module's guaranteed list; "
     "for every dump function and every required attribute: the attribute set to None on an otherwise loadable object "
-    "must raise PrepareDumpError with no open() call and an untouched pre-existing file"
+    "must raise PrepareDumpError with no open() call and an untouched pre-existing file. "
+    "rdr:<fmt> (tie of the 'guaranteed => set' theorems for xyz, sdf, mol2, pdb, cube, gromacs): corpus and generated "
+    "files of these formats x line truncations x seeded mutations (as C07, smaller budget): real formats.<fmt>.load_one "
+    "+ IOData(**result) against the Lean reader, compared: outcome class, array shapes, the keys of the result "
+    "dictionary whose value is not None, the constructor's verdict, the attributes that are not None on the "
+    "constructed object, lit.lineno; non-trivial = the outcome differs from the unmodified file's"
 )
 TRUSTED = [
     "registry extraction: FORMAT_MODULES/INPUT_MODULES of the imported iodata.api, PATTERNS and hasattr on the module "
     "objects, the lists attached by the document_* decorators, inspect.signature(IOData.__init__), "
     "iodata.__main__.DESCRIPTION",
+    "the ast walk harness/vh/props/_c17readers.py (formats/{xyz,sdf,mol2,pdb,cube,gromacs}.py -> Gen/ReaderKeys.lean: "
+    "keys of every dictionary load_one returns / keys stored on some paths only; load_many yields unmodified "
+    "load_one(lit) dictionaries; attrs defaults of IOData)",
 ]
 ASSUMPTIONS = [
     "fnmatch.fnmatch on POSIX for patterns made only of literal characters and '*' (checked on every run: no "
@@ -37,7 +47,19 @@ ASSUMPTIONS = [
     "os.path.basename on POSIX = text after the last '/'",
     "hasattr(module, attrname) is modelled for the four operation names (and one absent name) only",
     "dict iteration order of FORMAT_MODULES = insertion order = order of pkgutil.iter_modules",
-]
+    "'guaranteed => set' is a theorem for the six formats with a Lean reader (xyz, sdf, mol2, pdb, cube, gromacs; "
+    "load_one, and load_many through the generated fact that every frame is an unmodified load_one(lit) dictionary); "
+    "the reader models are hand transcriptions tied to the real readers by the rdr:<fmt> streams (character domain and "
+    "allocation limit as stated for C07) and by the generated result-key skeletons; 'set' = the name is a key of the "
+    "result dictionary with a value that is not None, hence not None on IOData(**result) (constructor model: no "
+    "converter/validator produces None; atcharges/atffparams/extra default to a dict; atcorenums is derived from "
+    "atnums); sub-keys of dictionary-valued attributes are not part of any declaration and are not covered",
+    "NOT PROVED for the other 19 format modules: 'guaranteed => set' is direct search (corpus files, files generated "
+    "from them, mutated corpus files that still load)",
+    "load_many of the six modules: that the frames handed to IOData(**frame) by api.load_many are the generator's "
+    "dictionaries is the flow theorem of C07; the loop around load_one (blank-line skipping, lit.back) is not modelled "
+    "here (C13 models it), only that each yielded frame is a load_one result on the remaining lines",
+] + [a for a in rdrs.ASSUMPTIONS if a.startswith(("character domain", "allocations above"))]
 
 
 # --------------------------------------------------------------------------- T1
@@ -125,6 +147,8 @@ def translate(ctx):
                 + ",\n   ".join(f"({_chars(op)}, {lean_list(names, _chars)})" for op, names in _cli_help()) + "]\n")
     body.append("end Iodata.Gen.Registry\n")
     ctx.gen_write("Registry", "\n".join(body))
+    # result-key skeletons of the six readers with a Lean model (Gen/ReaderKeys.lean)
+    rkeys.translate(ctx)
 
 
 # --------------------------------------------------------------------------- T2
@@ -310,6 +334,8 @@ def correspond(ctx):
     cases = [(p, f) for p in ["x.com", "", "d/x.in", "orca.inp"] for f in list(INPUT_MODULES) + ["", "Orca", "gaussian ", "nope", "xyz", "common"]]
     ctx.corr("selectin", [f"selectin {_enc(p)} {_enc(f)}" for p, f in cases], [impl_selectin(p, f) for p, f in cases],
              None, ["registered" if f in INPUT_MODULES else "unknown" for _, f in cases])
+    # the reader models of the 'guaranteed => set' theorems against the real readers (keys / set attributes included)
+    rdrs.correspond_rdr(ctx, trunc_cap=ctx.n(40, 400), nmut=ctx.n(25, 200), report_failures=False)
 
 
 # --------------------------------------------------------------------------- S (real code only)
